@@ -89,6 +89,18 @@ class DuplicateSymbolError(GotranxError):
 
 
 @dataclass
+class ReservedSymbolError(GotranxError):
+    names: set[str]
+    reason: str = "they have a special meaning"
+
+    def __str__(self) -> str:
+        return (
+            f"The names {sorted(self.names)!r} cannot be used for states, parameters "
+            f"or expressions, because {self.reason}. Please rename them."
+        )
+
+
+@dataclass
 class UnknownTreeTypeError(GotranxError):
     datatype: str
     atom: str
